@@ -23,7 +23,8 @@ import (
 )
 
 var infoFields = map[string]string{"Name": "name", "Version": "version", "Prerelease": "prerelease", "VersionMetadata": "version_metadata",
-	"Release": "release", "Epoch": "epoch"}
+	"Release": "release", "Epoch": "epoch", "Homepage": "homepage", "License": "license", "Description": "description",
+	"Maintainer": "maintainer", "Vendor": "vendor"}
 
 type strFn struct {
 	pkg, name, coqName string
@@ -40,6 +41,8 @@ type trCtx struct {
 	preds  map[string]string              // keep-or-drop rune functions usable in strings.Map, Go name -> Coq name
 	callHook func(*ast.CallExpr) string   // string-valued calls the context knows (v.Prerelease() ...), "" otherwise
 	intHook  func(ast.Expr) string        // integer-valued expressions usable under %d, "" otherwise
+	identHook func(string) string         // locals defined elsewhere in the function (program slices), "" otherwise
+	blockKeys map[string]string           // yaml keys by Go field name, for info.<Block>.<Field>
 }
 
 func (c *trCtx) fail(format string, a ...any) string {
@@ -62,6 +65,11 @@ func (c *trCtx) expr(e ast.Expr) string {
 		if v, ok := c.consts[x.Name]; ok {
 			return coqStr(v)
 		}
+		if c.identHook != nil {
+			if v := c.identHook(x.Name); v != "" {
+				return v
+			}
+		}
 		return "v_" + x.Name
 	case *ast.ParenExpr:
 		return c.expr(x.X)
@@ -69,6 +77,15 @@ func (c *trCtx) expr(e ast.Expr) string {
 		if c.sel != nil {
 			if v := c.sel(x); v != "" {
 				return v
+			}
+		}
+		if inner, ok := x.X.(*ast.SelectorExpr); ok && c.blockKeys != nil {
+			if id, ok := inner.X.(*ast.Ident); ok && id.Name == "info" {
+				if blk, ok := fmtBlocks[inner.Sel.Name]; ok {
+					if k, ok := c.blockKeys[x.Sel.Name]; ok && k != "" {
+						return `(gs i "` + blk + "." + k + `"%string)`
+					}
+				}
 			}
 		}
 		if id, ok := x.X.(*ast.Ident); ok && id.Name == "info" {
@@ -1612,4 +1629,206 @@ func genTriggersFn(repo, out string) {
 		fmt.Fprintf(&b, "Definition src_deb_triggers (i : minfo) : str :=\n  flat_map (fun '(d, k) => flat_map (fun n => %s) (gl i k))\n    [%s].\nDefinition src_deb_triggers_translated : bool := true.\n", lineFmt, strings.Join(rows, ";\n     "))
 	}
 	writeIfChanged(filepath.Join(out, "TriggersFn.v"), b.String())
+}
+
+
+// ---- archlinux: the fields of .PKGINFO - the map handed to writeKVPairs (written in key order) and the loops after it ----
+func genPkginfoFields(repo, out string) {
+	keys := yamlKeys(parseFile(filepath.Join(repo, "nfpm.go")))
+	f := parseFile(filepath.Join(repo, "arch/arch.go"))
+	c := &trCtx{known: map[string]string{}, blockKeys: keys}
+	var fd, ds, kv, kvs *ast.FuncDecl
+	for _, d := range f.Decls {
+		if x, ok := d.(*ast.FuncDecl); ok && x.Body != nil {
+			switch x.Name.Name {
+			case "createPkginfo":
+				fd = x
+			case "defaultStr":
+				ds = x
+			case "writeKVPair":
+				kv = x
+			case "writeKVPairs":
+				kvs = x
+			}
+		}
+	}
+	var b strings.Builder
+	b.WriteString("(* GENERATED from /repo (arch/arch.go: createPkginfo, defaultStr, writeKVPair(s); internal/maps) on every run by translators/strfn.go (genPkginfoFields) - do not edit *)\n")
+	b.WriteString("From Coq Require Import List String Bool NArith ZArith.\nFrom Coq Require Import Strings.Byte.\nFrom NfpmV Require Import Lib.Bytes Model.Content Model.Meta Proofs.PkginfoProofs.\nFrom NfpmV Require Import Gen.ArchPkgver.\nImport ListNotations.\nOpen Scope list_scope.\nOpen Scope bool_scope.\n\n")
+	body := "[]"
+	func() {
+		if fd == nil || ds == nil || kv == nil || kvs == nil {
+			c.fail("createPkginfo, defaultStr, writeKVPair or writeKVPairs is missing")
+			return
+		}
+		// writeKVPair skips empty values: if value == "" { return nil }
+		okSkip := false
+		if is, ok := kv.Body.List[0].(*ast.IfStmt); ok {
+			if be, ok := is.Cond.(*ast.BinaryExpr); ok && be.Op == token.EQL {
+				if id, ok := be.X.(*ast.Ident); ok && id.Name == kv.Type.Params.List[1].Names[len(kv.Type.Params.List[1].Names)-1].Name {
+					if s, ok := strLit(be.Y); ok && s == "" && len(is.Body.List) == 1 {
+						_, okSkip = is.Body.List[0].(*ast.ReturnStmt)
+					}
+				}
+			}
+		}
+		if !okSkip {
+			c.fail("writeKVPair does not start by skipping an empty value")
+			return
+		}
+		// writeKVPairs ranges over maps.Keys(pairs), and internal/maps.Keys sorts
+		sorted := false
+		if rs, ok := kvs.Body.List[0].(*ast.RangeStmt); ok {
+			if ce, ok := rs.X.(*ast.CallExpr); ok {
+				if se, ok := ce.Fun.(*ast.SelectorExpr); ok && se.Sel.Name == "Keys" {
+					mf := parseFile(filepath.Join(repo, "internal/maps/maps.go"))
+					ast.Inspect(mf, func(n ast.Node) bool {
+						if ce, ok := n.(*ast.CallExpr); ok {
+							if se, ok := ce.Fun.(*ast.SelectorExpr); ok && se.Sel.Name == "Strings" {
+								if id, ok := se.X.(*ast.Ident); ok && id.Name == "sort" {
+									sorted = true
+								}
+							}
+						}
+						return true
+					})
+				}
+			}
+		}
+		if !sorted {
+			c.fail("writeKVPairs does not write in the order of sorted keys")
+			return
+		}
+		// defaultStr
+		var dparams []string
+		for _, fl := range ds.Type.Params.List {
+			for _, n := range fl.Names {
+				dparams = append(dparams, "(v_"+n.Name+" : str)")
+			}
+		}
+		dc := &trCtx{}
+		dbody := dc.stmts(ds.Body.List, "", "  ")
+		if dc.err != "" {
+			c.fail("defaultStr: %s", dc.err)
+			return
+		}
+		fmt.Fprintf(&b, "Definition src_arch_defaultStr %s : str :=\n  %s.\n\n", strings.Join(dparams, " "), dbody)
+		c.known["defaultStr"] = "src_arch_defaultStr"
+		// locals of createPkginfo
+		defs := map[string]ast.Expr{}
+		for _, st := range fd.Body.List {
+			if as, ok := st.(*ast.AssignStmt); ok && as.Tok == token.DEFINE && len(as.Lhs) == 1 && len(as.Rhs) == 1 {
+				if id, ok := as.Lhs[0].(*ast.Ident); ok {
+					defs[id.Name] = as.Rhs[0]
+				}
+			}
+		}
+		sizeParam := fd.Type.Params.List[len(fd.Type.Params.List)-1].Names[0].Name
+		c.callHook = func(ce *ast.CallExpr) string {
+			if se, ok := ce.Fun.(*ast.SelectorExpr); ok && se.Sel.Name == "FormatInt" && len(ce.Args) == 2 {
+				if base, ok := ce.Args[1].(*ast.BasicLit); ok && base.Value == "10" {
+					if id, ok := ce.Args[0].(*ast.Ident); ok && id.Name == sizeParam {
+						return "(dec size)"
+					}
+					if in, ok := ce.Args[0].(*ast.CallExpr); ok && len(in.Args) == 0 {
+						if s2, ok := in.Fun.(*ast.SelectorExpr); ok && s2.Sel.Name == "Unix" {
+							if id, ok := s2.X.(*ast.Ident); ok && id.Name == "mtime" {
+								return "(dec builddate)"
+							}
+						}
+					}
+				}
+			}
+			return ""
+		}
+		seen := map[string]bool{}
+		c.identHook = func(name string) string {
+			if name == "pkgver" {
+				return "(src_arch_pkgver i arch)"
+			}
+			if e, ok := defs[name]; ok && !seen[name] {
+				seen[name] = true
+				v := c.expr(e)
+				seen[name] = false
+				return v
+			}
+			return ""
+		}
+		// the map literal
+		var lit *ast.CompositeLit
+		var loops []string
+		for _, st := range fd.Body.List {
+			ast.Inspect(st, func(n ast.Node) bool {
+				if ce, ok := n.(*ast.CallExpr); ok {
+					if id, ok := ce.Fun.(*ast.Ident); ok && id.Name == "writeKVPairs" && len(ce.Args) == 2 {
+						lit, _ = ce.Args[1].(*ast.CompositeLit)
+					}
+				}
+				return true
+			})
+			if rs, ok := st.(*ast.RangeStmt); ok && lit != nil {
+				// for _, v := range info.X { err = writeKVPair(buf, "key", v) ... }
+				se, ok := rs.X.(*ast.SelectorExpr)
+				v, _ := rs.Value.(*ast.Ident)
+				if !ok || v == nil {
+					c.fail("a loop after the map that is not over a field of info")
+					return
+				}
+				key, direct := "", false
+				ast.Inspect(rs.Body, func(n ast.Node) bool {
+					if ce, ok := n.(*ast.CallExpr); ok {
+						if id, ok := ce.Fun.(*ast.Ident); ok && id.Name == "writeKVPair" && len(ce.Args) == 3 {
+							key, _ = strLit(ce.Args[1])
+							if a, ok := ce.Args[2].(*ast.Ident); ok && a.Name == v.Name {
+								direct = true
+							}
+						}
+					}
+					return true
+				})
+				if se.Sel.Name == "Contents" {
+					loops = append(loops, "flat_map (okf \""+key+"\") backups") // the values are Gen/BackupFn.v's
+					continue
+				}
+				yk, ok := keys[se.Sel.Name]
+				if key == "" || !direct || !ok || yk == "" {
+					c.fail("a loop after the map outside the subset")
+					return
+				}
+				loops = append(loops, "flat_map (okf \""+key+"\") (gl i \""+yk+"\"%string)")
+			}
+		}
+		if lit == nil {
+			c.fail("no writeKVPairs(buf, map literal)")
+			return
+		}
+		type row struct{ k, v string }
+		var rows []row
+		for _, el := range lit.Elts {
+			kvx, ok := el.(*ast.KeyValueExpr)
+			if !ok {
+				c.fail("map literal outside the subset")
+				return
+			}
+			k, ok := strLit(kvx.Key)
+			if !ok {
+				c.fail("map key that is not a literal")
+				return
+			}
+			rows = append(rows, row{k, c.expr(kvx.Value)})
+		}
+		sort.Slice(rows, func(a, b int) bool { return rows[a].k < rows[b].k })
+		var parts []string
+		for _, r := range rows {
+			parts = append(parts, "okf \""+r.k+"\" "+r.v)
+		}
+		parts = append(parts, loops...)
+		body = strings.Join(parts, "\n  ++ ")
+	}()
+	if c.err != "" {
+		fmt.Fprintf(&b, "(* UNTRANSLATABLE - %s *)\nDefinition src_arch_info_fields (i : minfo) (arch : str) (size builddate : Z) (backups : list str) : list (str * str) := [].\nDefinition src_arch_info_fields_translated : bool := false.\n", c.err)
+	} else {
+		fmt.Fprintf(&b, "(* the (key, value) pairs written after the comment line, in order; empty values are skipped (okf) *)\nDefinition src_arch_info_fields (i : minfo) (arch : str) (size builddate : Z) (backups : list str) : list (str * str) :=\n  %s.\nDefinition src_arch_info_fields_translated : bool := true.\n", body)
+	}
+	writeIfChanged(filepath.Join(out, "PkginfoFields.v"), b.String())
 }
